@@ -2,9 +2,11 @@
    accounting.  Statements only; proofs live in C13/Proofs*.v.  Model: C13/Model.v
    (transcription of psutil/_pslinux.py and psutil/__init__.py), specification:
    C13/Spec.v (kernel records, printers k_statm / k_smaps / k_rollup, demanded answers). *)
-From PV Require Import C13.Spec C13.Lib C13.ProofsMaps C13.ProofsSums C13.ProofsRollup C13.ProofsGroup C13.Proofs.
+From PV Require Import C13.Spec C13.Lib C13.ProofsMaps C13.ProofsSums C13.ProofsRollup C13.ProofsGroup C13.Proofs Gen.C13_Tables.
 
-(* memory_info(): the kernel's page counts times the page size, under the documented names *)
+(* memory_info(): the seven page counts of statm (size resident shared text lib data dt, alias
+   vms rss shared trs lrs drs dt) times the page size, as pmem(rss, vms, shared, text, lib,
+   data, dirty) *)
 Theorem C13_memory_info_statm : forall pagesize r,
   wf_statm r = true -> memory_info pagesize (k_statm r) = Val (spec_meminfo pagesize r).
 Proof. exact statm_roundtrip. Qed.
@@ -68,7 +70,9 @@ Theorem C13_full_info_rollup : forall pagesize r ms rl smaps,
 Proof. exact full_info_rollup. Qed.
 Print Assumptions C13_full_info_rollup.
 
-(* the same record whether the roll-up or the listing is the source *)
+(* the same record whether the roll-up or the listing is the source -- exact hypothesis:
+   the roll-up's Private_*, Pss and Swap lines are the sums of the listing's lines
+   ([consistent]) *)
 Theorem C13_rollup_agrees : forall ex pagesize r ms rl,
   wf_statm r = true -> forallb (wf_kernel ex) ms = true -> wf_rollup rl = true -> consistent rl ms = true ->
   memory_full_info Alive pagesize true (FContent (k_rollup rl)) (FContent (k_smaps ms)) (FContent (k_statm r))
@@ -76,14 +80,64 @@ Theorem C13_rollup_agrees : forall ex pagesize r ms rl,
 Proof. exact rollup_agrees. Qed.
 Print Assumptions C13_rollup_agrees.
 
+(* a real kernel keeps Pss in sub-kB precision (per mapping floor(pss_i), roll-up
+   floor(sum pss_i)): with such a roll-up as the source the record carries the roll-up's Pss,
+   at most (number of mappings - 1) kB above the listing's sum; uss and swap are the same *)
+Theorem C13_full_info_rollup_rounded : forall pagesize r ms rl smaps,
+  wf_statm r = true -> wf_rollup rl = true -> rounded rl ms = true ->
+  memory_full_info Alive pagesize true (FContent (k_rollup rl)) smaps (FContent (k_statm r))
+  = Val (spec_full_ru pagesize r ms rl)
+  /\ (let '(_, pss, _) := spec_sums ms in
+      pss <= ru_kb rl FPss * 1024 <= pss + 1024 * Z.of_nat (pred (length ms))).
+Proof. exact full_info_rollup_rounded. Qed.
+Print Assumptions C13_full_info_rollup_rounded.
+
 (* memory_maps(grouped=False): one row per mapping, in order, with its own address range,
    permissions, path ('[anon]' if none, the kernel's " (deleted)" marker removed) and its
-   own ten figures -- any number of mappings, any path bytes (blanks inside or at the end,
-   colons, " (deleted)", non-UTF-8) *)
-Theorem C13_maps_ungrouped : forall ex ms, forallb (wf_kernel ex) ms = true ->
+   own ten figures (0 for a figure the kernel does not print) -- any number of mappings, any
+   path bytes after a non-blank first byte (blanks inside or at the end, colons, " (deleted)",
+   non-UTF-8; a newline appears as the kernel shows it, \012), any kernel line set as long as it
+   is the same for every mapping (uniform_figs) *)
+Theorem C13_maps_ungrouped : forall ex ms, forallb (wf_kernel ex) ms = true -> uniform_figs ms = true ->
   memory_maps Alive ex (FContent (k_smaps ms)) = Val (map spec_row ms).
 Proof. exact maps_ungrouped. Qed.
 Print Assumptions C13_maps_ungrouped.
+
+(* ... uniform_figs cannot be dropped: get_blocks never clears its dict, so a mapping lacking
+   a line that an earlier mapping printed inherits the earlier value (no kernel prints that) *)
+Theorem C13_maps_stale_dict_refuted :
+  forallb (wf_kernel no_files) [stale_m1; stale_m2] = true /\ uniform_figs [stale_m1; stale_m2] = false
+  /\ exists rows, memory_maps Alive no_files (FContent (k_smaps [stale_m1; stale_m2])) = Val rows
+                 /\ map (fun r => nth 9 (w_nums r) 0) rows = [8192; 8192]
+                 /\ map (fun r => nth 9 (w_nums r) 0) (map spec_row [stale_m1; stale_m2]) = [8192; 0].
+Proof. exact maps_stale_dict_refuted. Qed.
+Print Assumptions C13_maps_stale_dict_refuted.
+
+(* ... nor the non-blank first byte: a leading blank is indistinguishable from the padding *)
+Theorem C13_maps_leading_blank_observation :
+  wf_body (m_lines blank_m) = true /\ path_ok no_files blank_m = false
+  /\ exists rows, memory_maps Alive no_files (FContent (k_smaps [blank_m])) = Val rows
+                 /\ map w_path rows = [bs "/tmp/a"] /\ m_path blank_m = 32 :: bs "/tmp/a".
+Proof. exact maps_leading_blank_observation. Qed.
+Print Assumptions C13_maps_leading_blank_observation.
+
+(* the row's path is the name as the kernel shows it; it is the name itself unless the name
+   contains a newline ... *)
+Theorem C13_kname_own : forall m, contains 10 (m_path m) = false -> kname m = m_path m.
+Proof. exact kname_own. Qed.
+Print Assumptions C13_kname_own.
+
+(* ... which the kernel writes as \012 without escaping the backslash: two different names
+   are shown alike, so the own path is not recoverable by any decoder (observation) *)
+Theorem C13_maps_newline_name_observation :
+  wf_kernel no_files ex_m4 = true
+  /\ exists rows, memory_maps Alive no_files (FContent (k_smaps [ex_m4])) = Val rows
+                 /\ map w_path rows = [bs "/tmp/n\012l"]
+                 /\ kname ex_m4 = bs "/tmp/n\012l" /\ m_path ex_m4 = bs "/tmp/n" ++ [10] ++ bs "l"
+                 /\ kname {| m_addr := []; m_perms := []; m_offset := []; m_dev := []; m_inode := []; m_pad := 0;
+                             m_path := bs "/tmp/n\012l"; m_deleted := false; m_lines := [] |} = kname ex_m4.
+Proof. exact maps_newline_name_observation. Qed.
+Print Assumptions C13_maps_newline_name_observation.
 
 (* the path decoding before /repo commit c15178c (str.strip() of the name) lost a blank at the
    end of a mapped file's name; the present one returns the mapping's own path *)
@@ -122,7 +176,7 @@ Proof. exact group_conservation. Qed.
 Print Assumptions C13_group_conservation.
 
 (* end to end: the grouped view of the kernel's listing *)
-Theorem C13_maps_grouped : forall ex ms, forallb (wf_kernel ex) ms = true ->
+Theorem C13_maps_grouped : forall ex ms, forallb (wf_kernel ex) ms = true -> uniform_figs ms = true ->
   omap group_rows (memory_maps Alive ex (FContent (k_smaps ms))) = Val (spec_grouped (map spec_row ms)).
 Proof. exact maps_grouped. Qed.
 Print Assumptions C13_maps_grouped.
@@ -155,3 +209,14 @@ Theorem C13_percent_kernel : forall ex pagesize r ms name total,
   = spec_percent name (spec_full pagesize r ms) total.
 Proof. exact percent_kernel. Qed.
 Print Assumptions C13_percent_kernel.
+
+(* the record layouts of the code as it is now (dumped into coq/Gen/C13_Tables.v on every run)
+   are the documented ones, and the model and the specification use them: pmem, pfullmem =
+   pmem + (uss, pss, swap), pmmap_grouped = path + ten figures, pmmap_ext = addr, perms + that *)
+Theorem C13_layouts_agree :
+  gen_pmem_fields = doc_pmem /\ gen_pfullmem_fields = doc_pfullmem
+  /\ gen_pmmap_grouped_fields = doc_grouped /\ gen_pmmap_ext_fields = doc_ext
+  /\ pmem_fields = doc_pmem /\ pfullmem_fields = doc_pfullmem /\ full_names = doc_pfullmem
+  /\ map_keys = map (fun f => fig_name f ++ [58]) row_figs.
+Proof. exact layouts_agree. Qed.
+Print Assumptions C13_layouts_agree.
